@@ -429,14 +429,17 @@ class Planted(Part):
         the planted text that follows inside the same interpolation."""
         if tok.strip() in texts:
             return tok.strip()
+        best = None
         for t in texts:
             end = src.find(t, off)
             inside = src.rfind("${", 0, off + 1) > src.rfind("}", 0, off)
             if end >= 0 and inside and "${" not in src[off:end] and \
                     src[off + len(tok):off + len(tok) + 1] == "}":
-                # (only the brace-truncated head of a ${...} candidate)
-                return t
-        return None
+                # (only the brace-truncated head of a ${...} candidate:
+                # the planted text that follows next)
+                if best is None or end < best[0]:
+                    best = (end, t)
+        return best[1] if best else None
 
     @staticmethod
     def check_location(src, tok, off, exc):
